@@ -58,6 +58,11 @@ def make_classes(pj):
             # IResource.get_available_units(date, task) may answer per task: some tasks can use only part of a day
             self.task_limits = {int(k) if str(k).lstrip('-').isdigit() else k: v for k, v in (task_limits or {}).items()}
 
+        def __repr__(self):
+            # pjplan formats the resource into some RuntimeError messages; the default repr carries a memory
+            # address, which would make the recorded outcome differ between processes (DESIGN section 14, no. 18)
+            return f'SimResource({self.name})'
+
         def cap(self, d, task_id=None):
             k = day(d).date().isoformat()
             base = self.overrides[k] if k in self.overrides else self.weekly[d.weekday()]
